@@ -644,16 +644,17 @@ theorem flat_take_prefix (w : World) (a : Arena) (l : List Slice) (k : Nat) (h :
 theorem World.consume_spec (w : World) (i : Nat) (v : Iov) (count : Nat) (hv : w.iov i = some v)
     (hinv : IovInv w v) :
     ∃ v', w.consume i count = some (w.setIov i (some v'), min count v.stableN) ∧
-      Consumed w v v' (sumLens (v.slices.take (min count v.stableN))) := by
+      Consumed w v v' (sumLens (v.slices.take (min count v.stableN))) ∧
+      v'.slices = v.slices.drop (min count v.stableN) := by
   unfold World.consume
   rw [hv]
   simp only [hinv.stableCount]
   have hle := stableN_le v
   have hmin : min (min count v.stableN) v.slices.length = min count v.stableN := by omega
-  obtain ⟨v', h1, h2, _, _⟩ := consumeSlices_spec w v (min count v.stableN) hinv
+  obtain ⟨v', h1, h2, h3, _⟩ := consumeSlices_spec w v (min count v.stableN) hinv
     (by rw [hmin]; intro e he; have := hinv.noBrBelow_stableN e he; omega)
   rw [h1, hmin]
-  exact ⟨v', rfl, h2⟩
+  exact ⟨v', rfl, h2, h3⟩
 
 /-- `ConsumingIovec::advance_slices`. -/
 theorem World.advance_spec (w : World) (i : Nat) (v : Iov) (count : Nat) (hv : w.iov i = some v)
@@ -771,7 +772,7 @@ theorem refines_consume (i : Nat) (s : State) (count : Nat) (hinv : Inv i s) :
   obtain ⟨v, hv, hi⟩ := hinv
   unfold Refines
   simp only [step, hv]
-  obtain ⟨v', h1, h2⟩ := World.consume_spec s.w i v count hv hi
+  obtain ⟨v', h1, h2, _⟩ := World.consume_spec s.w i v count hv hi
   rw [h1]
   have hm : sumLens (v.slices.take (min count v.stableN)) ≤ sumLens (v.slices.take v.stableN) :=
     sumLens_take_mono _ (Nat.min_le_right _ _)
@@ -2096,7 +2097,7 @@ theorem refines_pop (i : Nat) (s : State) (v : Iov) (hv : s.w.iov i = some v) (h
     (hn : 0 < v.stableN) : Refines i s .pop := by
   unfold Refines
   simp only [step, hv]
-  obtain ⟨v', h1, h2⟩ := World.consume_spec s.w i v 1 hv hi
+  obtain ⟨v', h1, h2, _⟩ := World.consume_spec s.w i v 1 hv hi
   have h11 : min 1 v.stableN = 1 := by omega
   rw [h11] at h1 h2
   rw [h1]
@@ -2181,5 +2182,212 @@ theorem refines_reserve (i : Nat) (s : State) (k : Nat) (hinv : Inv i s) : Refin
     · rw [abs_eq i s v hv, abs_eq i _ { v with arena := ⟨some ⟨s.w.next, cap, 0⟩⟩ } (by simp)]
       simp only [specStep, absCells_setIov]
       rfl
+
+/-! ### All operations together; panics; the ledger of appended cells -/
+
+/-- Exactly the situations in which an operation of the vocabulary panics. -/
+def Panics (i : Nat) (s : State) : Op → Prop
+  | .backfill tok src => ∀ v, s.w.iov i = some v → ¬ ValidToken v tok src
+  | .pop => ∀ v, s.w.iov i = some v → v.stableN = 0
+  | _ => False
+
+theorem refines_of_not_panics (i : Nat) (s : State) (op : Op) (hinv : Inv i s) (hp : ¬ Panics i s op) :
+    Refines i s op := by
+  obtain ⟨v, hv, hi⟩ := hinv
+  cases op with
+  | pushCopy src => exact refines_pushCopy i s src ⟨v, hv, hi⟩
+  | pushBorrowed b => exact refines_pushBorrowed i s b ⟨v, hv, hi⟩
+  | push b => exact refines_push i s b ⟨v, hv, hi⟩
+  | extend bs => exact refines_extend i s bs ⟨v, hv, hi⟩
+  | registerPatch pat => exact refines_registerPatch i s pat ⟨v, hv, hi⟩
+  | backfill tok src =>
+    apply refines_backfill i s v tok src hv hi
+    apply Classical.byContradiction
+    intro hnv
+    exact hp (fun v' hv' => by rw [hv] at hv'; cases hv'; exact hnv)
+  | consume c => exact refines_consume i s c ⟨v, hv, hi⟩
+  | pop =>
+    apply refines_pop i s v hv hi
+    apply Nat.pos_of_ne_zero
+    intro h0
+    exact hp (fun v' hv' => by rw [hv] at hv'; cases hv'; exact h0)
+  | advance c => exact refines_advance i s c ⟨v, hv, hi⟩
+  | readInto room => exact refines_readInto i s room ⟨v, hv, hi⟩
+  | clear => exact refines_clear i s ⟨v, hv, hi⟩
+  | flush => exact refines_flush i s ⟨v, hv, hi⟩
+  | reserve k => exact refines_reserve i s k ⟨v, hv, hi⟩
+
+theorem step_none_iff (i : Nat) (s : State) (op : Op) (hinv : Inv i s) :
+    step i s op = none ↔ Panics i s op := by
+  constructor
+  · intro h
+    apply Classical.byContradiction
+    intro hp
+    obtain ⟨s', r, h1, _⟩ := refines_of_not_panics i s op hinv hp
+    rw [h] at h1; cases h1
+  · intro hp
+    obtain ⟨v, hv, hi⟩ := hinv
+    cases op with
+    | backfill tok src => exact step_backfill_invalid i s v tok src hv (hp v hv)
+    | pop => exact step_pop_empty i s v hv hi (hp v hv)
+    | _ => exact absurd hp (by simp [Panics])
+
+theorem step_refines (i : Nat) (s s' : State) (op : Op) (r : Ret) (hinv : Inv i s)
+    (h : step i s op = some (s', r)) :
+    Inv i s' ∧ abs i s' = specStep (abs i s) op r ∧ specOk (abs i s) op r := by
+  have hp : ¬ Panics i s op := by
+    intro hp
+    rw [(step_none_iff i s op hinv).mpr hp] at h; cases h
+  exact (refines_of_not_panics i s op hinv hp).elim s' r h
+
+/-! #### The ledger -/
+
+/-- Consumed bytes followed by the buffered cells. -/
+def pipeHistory (p : Pipe) : List Cell := p.consumed.map Cell.byte ++ p.cells
+
+/-- Reference semantics of "everything appended since the last clear, backfilled placeholders
+holding their values": producers append, `backfill` fills, `clear` resets, consumers do nothing. -/
+def ledgerStep (l : List Cell) : Op → Ret → List Cell
+  | .pushCopy src, _ => l ++ src.map Cell.byte
+  | .pushBorrowed b, _ => l ++ b.bs.map Cell.byte
+  | .push b, _ => l ++ b.bs.map Cell.byte
+  | .extend bs, _ => l ++ (bs.flatMap (·.bs)).map Cell.byte
+  | .registerPatch pat, .token (some (key, _)) => l ++ List.replicate pat.length (Cell.hole key)
+  | .backfill (some (key, _)) src, _ => fillCells key l src
+  | .clear, _ => []
+  | _, _ => l
+
+def ledger : List Cell → List Op → List Ret → List Cell
+  | l, op :: ops, r :: rs => ledger (ledgerStep l op r) ops rs
+  | l, _, _ => l
+
+theorem cells_of_prefix_stable (cells : List Cell) (rm : List UInt8)
+    (h : rm <+: cellBytes (cells.takeWhile Cell.isByte)) : cells = rm.map Cell.byte ++ cells.drop rm.length := by
+  induction rm generalizing cells with
+  | nil => simp
+  | cons b t ih =>
+    cases cells with
+    | nil => simp [cellBytes] at h
+    | cons c cs =>
+      cases c with
+      | hole j => simp [List.takeWhile, Cell.isByte, cellBytes] at h
+      | byte x =>
+        simp only [List.takeWhile, Cell.isByte, cellBytes, List.cons_prefix_cons] at h
+        obtain ⟨rfl, h2⟩ := h
+        simp only [List.map_cons, List.length_cons, List.drop_succ_cons, List.cons_append, List.cons.injEq, true_and]
+        exact ih cs h2
+
+theorem Pipe.consume_history (p : Pipe) (rm : List UInt8) (h : rm <+: p.stable) :
+    pipeHistory (p.consume rm.length).1 = pipeHistory p ∧ p.cells = rm.map Cell.byte ++ (p.consume rm.length).1.cells ∧
+      (p.consume rm.length).1.consumed = p.consumed ++ rm := by
+  have hc := cells_of_prefix_stable p.cells rm h
+  obtain ⟨e1, _⟩ := Pipe.consume_of_cells p rm _ hc
+  rw [e1]
+  refine ⟨?_, hc, rfl⟩
+  unfold pipeHistory
+  simp only [List.map_append, List.append_assoc]
+  rw [← hc]
+
+theorem fillCells_map_byte_append (id : Nat) (bs : List UInt8) (l : List Cell) (src : List UInt8) :
+    fillCells id (bs.map Cell.byte ++ l) src = bs.map Cell.byte ++ fillCells id l src :=
+  fillCells_append_of_no_hole id _ _ _ (by
+    intro c hc heq
+    simp only [List.mem_map] at hc
+    obtain ⟨b, _, hb⟩ := hc
+    rw [heq] at hb; cases hb)
+
+theorem history_specStep (p : Pipe) (op : Op) (r : Ret) (hok : specOk p op r) :
+    pipeHistory (specStep p op r) = ledgerStep (pipeHistory p) op r := by
+  cases op with
+  | pushCopy src => simp [specStep, ledgerStep, pipeHistory, Pipe.append]
+  | pushBorrowed b => simp [specStep, ledgerStep, pipeHistory, Pipe.append]
+  | push b => simp [specStep, ledgerStep, pipeHistory, Pipe.append]
+  | extend bs => simp [specStep, ledgerStep, pipeHistory, Pipe.append]
+  | registerPatch pat =>
+    cases r with
+    | token b =>
+      cases b with
+      | none => simp [specStep, ledgerStep, pipeHistory, Pipe.registerAs]
+      | some e => obtain ⟨k, inf⟩ := e; simp [specStep, ledgerStep, pipeHistory, Pipe.registerAs]
+    | unit => exact absurd hok (by simp [specOk])
+    | took n rm => exact absurd hok (by simp [specOk])
+  | backfill tok src =>
+    cases tok with
+    | none => simp [specStep, ledgerStep]
+    | some e =>
+      obtain ⟨k, inf⟩ := e
+      simp only [specStep, ledgerStep, pipeHistory, Pipe.fill]
+      rw [fillCells_map_byte_append]
+  | consume c =>
+    cases r with
+    | took n rm => simp only [specStep, ledgerStep]; exact (Pipe.consume_history p rm hok).1
+    | unit => exact absurd hok (by simp [specOk])
+    | token b => exact absurd hok (by simp [specOk])
+  | pop =>
+    cases r with
+    | took n rm => simp only [specStep, ledgerStep]; exact (Pipe.consume_history p rm hok.2).1
+    | unit => exact absurd hok (by simp [specOk])
+    | token b => exact absurd hok (by simp [specOk])
+  | advance c =>
+    cases r with
+    | took n rm => simp only [specStep, ledgerStep]; exact (Pipe.consume_history p rm hok.2.2).1
+    | unit => exact absurd hok (by simp [specOk])
+    | token b => exact absurd hok (by simp [specOk])
+  | readInto c =>
+    cases r with
+    | took n rm => simp only [specStep, ledgerStep]; exact (Pipe.consume_history p rm hok.2.2).1
+    | unit => exact absurd hok (by simp [specOk])
+    | token b => exact absurd hok (by simp [specOk])
+  | clear => simp [specStep, ledgerStep, pipeHistory, Pipe.clear]
+  | flush => simp [specStep, ledgerStep]
+  | reserve k => simp [specStep, ledgerStep]
+
+theorem history_specRun (ops : List Op) : ∀ (p : Pipe) (rs : List Ret), specOkRun p ops rs →
+    pipeHistory (specRun p ops rs) = ledger (pipeHistory p) ops rs := by
+  induction ops with
+  | nil => intro p rs _; cases rs <;> rfl
+  | cons op ops ih =>
+    intro p rs hok
+    cases rs with
+    | nil => exact absurd hok (by simp [specOkRun])
+    | cons r rs =>
+      simp only [specOkRun] at hok
+      simp only [specRun, ledger]
+      rw [ih _ _ hok.2, history_specStep p op r hok.1]
+
+/-! ### Exact results of the consumer operations -/
+
+theorem step_consume_exact (i : Nat) (s : State) (v : Iov) (count : Nat) (hv : s.w.iov i = some v)
+    (hi : IovInv s.w v) :
+    ∃ v', step i s (.consume count) =
+        some ({ s with w := s.w.setIov i (some v'),
+                       ghost := s.ghost ++ s.w.flat (v.slices.take (min count v.stableN)) },
+              .took (min count v.stableN) (s.w.flat (v.slices.take (min count v.stableN)))) ∧
+      v'.slices = v.slices.drop (min count v.stableN) := by
+  obtain ⟨v', h1, _, h3⟩ := World.consume_spec s.w i v count hv hi
+  exact ⟨v', by simp only [step, hv, h1]; rfl, h3⟩
+
+theorem step_advance_exact (i : Nat) (s : State) (v : Iov) (count : Nat) (hv : s.w.iov i = some v)
+    (hi : IovInv s.w v) :
+    ∃ v', step i s (.advance count) =
+        some ({ s with w := s.w.setIov i (some v'),
+                       ghost := s.ghost ++ (s.w.visible v).take count },
+              .took (min count (s.w.visible v).length) ((s.w.visible v).take count)) := by
+  obtain ⟨v', h1, _⟩ := World.advance_spec s.w i v count hv hi
+  refine ⟨v', ?_⟩
+  have hrm : (s.w.flat v.slices).take (min count (sumLens (v.slices.take v.stableN))) = (s.w.visible v).take count := by
+    obtain ⟨rest, hrest⟩ := visible_prefix_flat s.w v
+    rw [← hi.visible_length, ← hrest, List.take_append_of_le_length (Nat.min_le_right _ _)]
+    rw [List.take_eq_take_iff]; simp
+  simp only [step, hv, h1, Option.map_some, hrm, hi.visible_length]
+
+theorem step_readInto_exact (i : Nat) (s : State) (v : Iov) (room : Nat) (hv : s.w.iov i = some v)
+    (hi : IovInv s.w v) :
+    ∃ w', step i s (.readInto room) =
+        some ({ s with w := w', ghost := s.ghost ++ (s.w.visible v).take room },
+              .took ((s.w.visible v).take room).length ((s.w.visible v).take room)) := by
+  obtain ⟨w', v', h1, _⟩ := World.readInto_spec i (room + 2) s.w v room [] hv hi (by omega)
+  simp only [List.nil_append] at h1
+  exact ⟨w', by simp only [step, h1]; rfl⟩
 
 end Woodpile.Iovec
